@@ -20,6 +20,7 @@ package main
 // then abandoned and the remaining ops of the case answer `skip`).
 
 import (
+	"regexp"
 	"bufio"
 	"context"
 	"encoding/hex"
@@ -45,6 +46,9 @@ import (
 
 func init() { Register("C06", Domain{Gen: c06Gen, Run: c06Run}) }
 
+var c06LongKeyRe = regexp.MustCompile(`x@[0-9]+`)
+var c06LongRunRe = regexp.MustCompile(`x{1000,}`)
+
 // A request that has not returned after c06OpTimeout is reported as `hang`: a limit that a loaded
 // machine cannot reach by accident.  (Uint32SliceDelete used to block forever on a live key; since
 // the repair of that deadlock it is drawn as often as any other request and has the same limit.
@@ -60,6 +64,7 @@ type c06State struct {
 	swamp   string
 	base    int64 // unix ns; client-side relative times are base+offset
 	server  map[int64]bool
+	opStarts []int64 // wall-clock start of every request of the case (not wait / close / restart / compact)
 	dead    bool // a request hung in this case
 	rigDead bool
 }
@@ -180,7 +185,7 @@ func (s *c06State) tsOutStamp(t *timestamppb.Timestamp) string {
 	if t != nil {
 		n := t.Seconds*1e9 + int64(t.Nanos)
 		if n >= s.base && n <= time.Now().UnixNano()+int64(time.Millisecond) {
-			return "T"
+			return s.stampName(n)
 		}
 	}
 	return s.tsOut(t)
@@ -192,13 +197,27 @@ func (s *c06State) tsOut(t *timestamppb.Timestamp) string {
 	}
 	n := t.Seconds*1e9 + int64(t.Nanos)
 	if s.server[n] {
-		return "T"
+		return s.stampName(n)
 	}
 	d := n - s.base
 	if d > -1e15 && d < 1e15 {
 		return "b" + strconv.FormatInt(d, 10)
 	}
 	return "a" + strconv.FormatInt(n, 10)
+}
+
+// a server stamp is written T<j>: j = the number of the request (within the case) during which the
+// server took it — the last request that had started when the clock showed that value.  A stamp
+// that comes back altered (rounded by a reload, copied from another record, …) names another request
+// or is no server stamp at all.
+func (s *c06State) stampName(n int64) string {
+	j := 0
+	for _, t0 := range s.opStarts {
+		if t0 <= n {
+			j++
+		}
+	}
+	return "T" + strconv.Itoa(j)
 }
 
 // mark timestamps produced by the server during this op
@@ -897,6 +916,7 @@ func c06Run(in *bufio.Scanner, w *bufio.Writer) {
 			s.swamp = name.New().Sanctuary(c06Sanctuary(s.kind)).Realm("r" + s.runTag).Swamp("c" + s.caseNo).Get()
 			s.base = time.Now().UnixNano()
 			s.server = map[int64]bool{}
+			s.opStarts = nil
 			fmt.Fprintln(w, line)
 			continue
 		}
@@ -992,6 +1012,16 @@ func c06Run(in *bufio.Scanner, w *bufio.Writer) {
 			}
 			continue
 		}
+		if f[0] != "compact" {
+			s.opStarts = append(s.opStarts, time.Now().UnixNano())
+		}
+		// long keys are written `x@N` in the protocol (N times the letter x on the wire)
+		for i := range f {
+			f[i] = c06LongKeyRe.ReplaceAllStringFunc(f[i], func(m string) string {
+				n, _ := strconv.Atoi(m[2:])
+				return strings.Repeat("x", n)
+			})
+		}
 		res := make(chan string, 1)
 		go func() {
 			defer func() {
@@ -1003,6 +1033,7 @@ func c06Run(in *bufio.Scanner, w *bufio.Writer) {
 		}()
 		select {
 		case r := <-res:
+			r = c06LongRunRe.ReplaceAllStringFunc(r, func(m string) string { return "x@" + strconv.Itoa(len(m)) })
 			fmt.Fprintln(w, r)
 		case <-time.After(c06TimeoutOf(f[0])):
 			fmt.Fprintln(w, "hang")
